@@ -315,6 +315,7 @@ def run(ctx):
     import props.C07_write as WS
     WS.prove_write_skeleton(ctx)
     WS.prove_single_positioning_write(ctx)
+    WS.prove_legacy_write_skeleton(ctx)
     WS.prove_sami_write_skeleton(ctx)
     P("sami.SAMIParser._find_lang", sami_find_lang, functions=[SAMIParser._find_lang])
     # the merge of concurrent captions (legacy / single-position DFXP writers) works language by language: a language
